@@ -6,7 +6,7 @@ import hashlib
 import json
 import random
 
-NESTED = {"inA": "InA", "inM": "InM", "e2": "E2", "e2x": "E2x", "e2u": "E2u", "io": "Io", "iox": "Iox"}
+NESTED = {"inA": "InA", "inM": "InM", "e2": "E2", "e2x": "E2x", "e2u": "E2u", "io": "Io", "iox": "Iox", "e2m": "E2m", "e2mu": "E2mu", "e2a": "E2a", "e2au": "E2au"}
 
 
 def canon(s):
@@ -18,8 +18,25 @@ def rust_ty(f):
     if f.get("skip"):
         return "u8"
     if f["opt"] and f["ty"] != "cu":
+        sp = f.get("osp", "plain")
+        if sp == "boxed":
+            return f"Box<Option<{base}>>"
+        if sp == "alias":
+            return {"u8": "OptU8", "String": "OptString"}[base]
+        if sp == "generic":
+            return "G" + str(f["idx"])
         return f"Option<{base}>"
     return base
+
+
+def generic_params(fields):
+    """(type parameter, instantiation) for every field spelled through a type parameter."""
+    out = []
+    for f in fields:
+        if f["opt"] and f["ty"] != "cu" and f.get("osp") == "generic" and not f.get("skip"):
+            base = {"u8": "u8", "str": "String"}[f["ty"]]
+            out.append(("G" + str(f["idx"]), f"Option<{base}>"))
+    return out
 
 
 def field_attr(f, rng):
@@ -49,7 +66,8 @@ def from_expr(f, src):
     inner = {"u8": f"fv_u8(&{src})", "cu": f"fv_u8(&{src})", "str": f"fv_str(&{src})", "bytes": f"fv_bytes(&{src})"}.get(ty) \
         or f"<{NESTED.get(ty, 'u8')} as Dv>::from_json(&{src}[\"sub\"])"
     if f["opt"] and ty != "cu":
-        return f"if {src}[\"some\"] == true {{ Some({inner}) }} else {{ None }}"
+        e = f"if {src}[\"some\"] == true {{ Some({inner}) }} else {{ None }}"
+        return f"Box::new({e})" if f.get("osp") == "boxed" else e
     return inner
 
 
@@ -62,7 +80,8 @@ def to_expr(f, val):
     def one(v):
         return {"u8": f"j_u8(*{v})", "cu": f"j_u8(*{v})", "str": f"j_bytes({v}.as_bytes())", "bytes": f"j_bytes({v})"}.get(ty) or f"j_sub({v}.to_json())"
     if f["opt"] and ty != "cu":
-        return f"match {val} {{ Some(x) => {one('x')}, None => j_none() }}"
+        scrut = f"&**{val}" if f.get("osp") == "boxed" else val
+        return f"match {scrut} {{ Some(x) => {one('x')}, None => j_none() }}"
     return one(val)
 
 
@@ -111,8 +130,12 @@ def gen_type(name, s, seed):
             out.append(type_attrs(s["enc"], s["tag"], rng=rng))
             body, ctor, pat, tos = gen_fields_struct(name, "", s["shape"], s["fields"], rng)
         semi = ";" if body.startswith("(") else ""
-        out.append(f"pub struct {name} {body}{semi}")
-        out.append(f"impl Dv for {name} {{")
+        gp = generic_params(s["fields"]) if not s["transparent"] else []
+        decl_g = "<" + ", ".join(g for g, _ in gp) + ">" if gp else ""
+        inst_g = "<" + ", ".join(t for _, t in gp) + ">" if gp else ""
+        out.append(f"pub struct {name}{decl_g} {body}{semi}")
+        INST[name] = name + inst_g
+        out.append(f"impl Dv for {name}{inst_g} {{")
         out.append(f"    fn from_json(v: &Value) -> Self {{ {name} {ctor} }}")
         out.append(f"    fn to_json(&self) -> Value {{ let {name} {pat} = self; Value::Array(vec![{', '.join(tos)}]) }}")
         out.append("}")
@@ -156,6 +179,7 @@ def gen_type(name, s, seed):
 
 
 PRELUDE_SCHEMAS = None
+INST = {}
 
 
 def generate(schemas, seed, nested_defs):
@@ -172,7 +196,7 @@ def generate(schemas, seed, nested_defs):
     out.append("pub fn run(sid: usize, op: &str, input: &Value) -> Value {")
     out.append("    match sid {")
     for i in range(len(schemas)):
-        out.append(f"        {i} => exec::<T{i}>(op, input),")
+        out.append(f"        {i} => exec::<{INST.get(f'T{i}', f'T{i}')}>(op, input),")
     out.append("        _ => json!({\"p\": \"unsupported\"})")
     out.append("    }")
     out.append("}")
